@@ -1,9 +1,59 @@
 import HedVerif.Driver.Util
+import HedVerif.Model.Events
 open Lean
 namespace HedVerif.Driver.C20
-open HedVerif HedVerif.Driver
+open HedVerif HedVerif.Driver HedVerif.Events
 
-/-- requests `{"op":"c20.<name>", ...}` of property C20 (stub: none yet) -/
-def handle (_op : String) (_j : Json) : Option (Except String Json) := none
+/-- ASCII case folding (the harness generates ASCII names only; Python `casefold` = `lower` there) -/
+def foldAscii (s : Events.Str) : Events.Str := s.map Char.toLower
+
+def itemOf (j : Json) : Except String Item := do
+  let a ← asArr j
+  match a with
+  | [Json.str "onset", Json.str n, c] => pure (.onset n.toList (← asNat c))
+  | [Json.str "offset", Json.str n] => pure (.offset n.toList)
+  | [Json.str "duration", l, c] =>
+    match l.getInt? with
+    | .ok len => pure (.duration len (← asNat c))
+    | .error _ => .error "duration length must be int"
+  | [Json.str "plain", c] => pure (.plain (← asNat c))
+  | _ => .error "bad item"
+
+def rowOf (j : Json) : Except String Row := do
+  let t ← getInt j "time"
+  let items ← (← getArr j "items").mapM itemOf
+  let ds ← (← getArr j "delayed").mapM fun d => do
+    let a ← asArr d
+    match a with
+    | [dt, it] => match dt.getInt? with
+      | .ok n => pure (n, ← itemOf it)
+      | .error _ => .error "delay must be int"
+    | _ => .error "delayed entry must be [delay, item]"
+  pure ⟨t, items, ds⟩
+
+def nats (xs : List Nat) : Json := jarr (xs.map jnat)
+
+/-- requests `{"op":"c20.build","rows":[{"time":t,"items":[…],"delayed":[[d,item],…]},…]}` -/
+def handle (op : String) (j : Json) : Option (Except String Json) :=
+  match op with
+  | "c20.build" => some do
+      let rows ← (← getArr j "rows").mapM rowOf
+      match build foldAscii rows with
+      | .error .unordered => pure <| jobj [("ok", jbool false), ("reject", Json.str "unordered")]
+      | .error .unmatchedOffset => pure <| jobj [("ok", jbool false), ("reject", Json.str "unmatchedOffset")]
+      | .ok b =>
+        let n := b.ts.length
+        let sp := specProcs foldAscii b.ts (timed (history rows))
+        pure <| jobj [
+          ("ok", jbool true),
+          ("onsets", jarr (b.ts.map jint)),
+          ("procs", jarr (b.procs.map fun p => jarr [jnat p.start, jopt jnat p.stop, jnat p.content])),
+          ("base", jarr (base b |>.map nats)),
+          ("contexts", jarr ((List.range n).map fun i =>
+              jarr ((b.procs.filter (inContext i)).map fun p => jarr [jnat p.content, jnat p.start]))),
+          ("remainder", jarr (b.rem.map nats)),
+          ("spec", jarr (b.ts.map fun τ => jarr [nats (specContext sp τ), nats (specContextIncl sp τ),
+                                                 nats (specStarts sp τ)]))]
+  | _ => none
 
 end HedVerif.Driver.C20
